@@ -319,3 +319,73 @@ def gen_sanitise_case(rng):
         z.append(txt('x.b.example', junk(rng.randrange(0, 20), bytes(range(1, 128)))))
     rng.shuffle(z)
     return case('a.example', rng.choice([client, ip16('10.0.0.1')]), z)
+
+def gen_rfc_case(rng):
+    """zones whose records are all inside the strict macro-free RFC 7208 grammar: the stream on which the result of the
+    implementation is compared with Spec/SpfRfc.v"""
+    client = ip16(rng.choice(V4 + V4 + V6))
+    v4 = is_v4(client)
+    names = NAMES[:5]
+    def d(): return rng.choice(names + ['sub.a.example', 'nx.example'])
+    def c4(): return rng.choice(['', '', '', '/32', '/24', '/16', '/8', '/0', '/31', '/7' if rng.random() < 0.1 else '/9'])
+    def c6(): return rng.choice(['', '', '', '//128', '//64', '//0', '//127', '//8'])
+    def t():
+        q = rng.choice(QUAL)
+        k = rng.random()
+        if k < 0.13: return q + 'all'
+        if k < 0.28: return q + rng.choice(['a', 'a:' + d(), 'A:' + d()]) + c4() + c6()
+        if k < 0.40: return q + rng.choice(['mx', 'mx:' + d(), 'MX']) + c4() + c6()
+        if k < 0.48: return q + rng.choice(['ptr', 'ptr:' + d()])
+        if k < 0.56: return q + 'exists:' + d()
+        if k < 0.68:
+            a = rng.choice(V4 + [iptext(client)] if v4 else V4)
+            p = rng.choice(['', '', '/32', '/24', '/8', '/16', '/31', '/9', '/7' if rng.random() < 0.08 else '/10', '/0' if rng.random() < 0.05 else '/12'])
+            return q + 'ip4:' + a + p
+        if k < 0.78:
+            a = rng.choice(V6 + [iptext(client)] if not v4 else V6)
+            if a == '::' and rng.random() < 0.8: a = '::2'
+            p = rng.choice(['', '', '/128', '/64', '/8', '/16', '/127', '/7' if rng.random() < 0.08 else '/9'])
+            return q + 'ip6:' + a + p
+        if k < 0.92: return q + 'include:' + d()
+        if k < 0.96: return rng.choice(['foo=bar', 'x-y.z_1=a/b:c', 'ra=postmaster'])
+        return 'exp=x.' + rng.choice(names)
+    z = []
+    for nm in names:
+        r = rng.random()
+        if r < 0.8:
+            ts = [t() for _ in range(rng.choice([0, 1, 1, 2, 2, 3, 4, 6]))]
+            if rng.random() < 0.3:
+                ts.insert(rng.randrange(len(ts) + 1), 'redirect=' + (d() if rng.random() < 0.1 else rng.choice(names)))
+            rec = 'v=spf1' + ''.join(rng.choice([' ', ' ', ' ', '  ']) + x for x in ts) + rng.choice(['', '', ' '])
+            recs = [rec]
+            if rng.random() < 0.1: recs.insert(rng.randrange(2), rng.choice(['other text', 'spf2.0/pra ?all', 'v=spf1 -all' if rng.random() < 0.3 else 'google-site-verification=x']))
+            z.append(txt(nm, *recs))
+        elif r < 0.85:
+            z.append(txterr(nm, rng.choice([2, 5, 7])))
+        else:
+            z.append(txt(nm, 'v=spf1 ' + rng.choice(['-all', '?all', 'a -all', 'mx ~all'])))
+        pool = V4 if v4 else V6
+        fam, famerr = (A, Aerr) if v4 else (A6, A6err)
+        r = rng.random()
+        if r < 0.55:
+            z.append(fam(nm, *[rng.choice(pool + [client]) for _ in range(rng.choice([1, 1, 2, 3]))]))
+        elif r < 0.62:
+            z.append(famerr(nm, 2))
+        if not v4 and rng.random() < 0.3:
+            z.append(A(nm, rng.choice(V4)))       # exists: always uses A
+        r = rng.random()
+        if r < 0.45:
+            n = rng.choice([1, 1, 2, 3, 9, 10, 11]) if rng.random() < 0.12 else rng.choice([1, 1, 2, 3])
+            z.append(MX(nm, *[(rng.choice([0, 10, 20, 65535]), [rng.choice(V4 + V6 + [client]) for _ in range(rng.choice([1, 1, 2]))]) for _ in range(n)]))
+        elif r < 0.55:
+            z.append(MXerr(nm, rng.choice([2, 4, 5])))
+    r = rng.random()
+    if r < 0.5:
+        z.append(N(client, *[rng.choice(names + ['mail.a.example', 'xa.example', 'a.example.com', 'sub.a.example']) for _ in range(rng.choice([1, 1, 2, 3, 10, 11]))]))
+    elif r < 0.56:
+        z.append(Nerr(client, rng.choice([2, 3])))
+    for nm in ['x.' + n for n in names[:2]]:
+        if rng.random() < 0.5: z.append(txt(nm, 'not allowed'))
+    rng.shuffle(z)
+    dom = rng.choice(names)
+    return case(dom, client, z, mailfrom=rng.choice(['user@' + dom, '']), helo='helo.example.org', rhost=rng.choice(['rh.example', 'rh.example', '']))
